@@ -20,9 +20,11 @@ import (
 	"encoding/hex"
 	"fmt"
 	"math"
+	"os"
 	"runtime"
 	"runtime/debug"
 	"sort"
+	"strconv"
 	"sync"
 	"sync/atomic"
 	"testing"
@@ -35,6 +37,13 @@ import (
 )
 
 const c06P = "C06"
+
+// c06PairMax: family A streams up to this length (and above the all-chunkings
+// bound) also get every pair of cuts in the thorough tier.
+var c06PairMax = 22
+
+// c06DryRun (env C06_DRY=1) only counts the runs of the enumeration; sizing aid.
+var c06DryRun = os.Getenv("C06_DRY") != ""
 
 // ---- configurations ----
 
@@ -235,6 +244,10 @@ func (w *c06Worker) runCase(g, j int, c *c06Case) {
 	failed := 0
 	one := func(idx int, cuts []int) {
 		usePI := idx%2 == 1
+		if c06DryRun {
+			w.runs++
+			return
+		}
 		step, class, desc := w.runOne(c, cuts, usePI)
 		w.runs++
 		w.runsBy[sum]++
@@ -391,6 +404,13 @@ func (x *c06Runner) runGroup(cases []*c06Case) {
 		x.stop = true
 		x.r.Cap(c06P, "soft time budget used up")
 	}
+}
+
+func (x *c06Runner) totalRuns() (n int64) {
+	for _, w := range x.workers {
+		n += w.runs
+	}
+	return
 }
 
 func (x *c06Runner) finish() {
@@ -585,7 +605,7 @@ func c06GenA(lim int, cfg *c06Cfg, srv bool, maxMsgs, nAll int, pairs bool) []*c
 			st := append(append([]byte{}, prefix...), s.b...)
 			if !seen[string(st)] {
 				seen[string(st)] = true
-				c := &c06Case{fam: "A", lim: lim, cfg: cfg, srv: srv, stream: st, allChunks: len(st) <= nAll, pairs: pairs}
+				c := &c06Case{fam: "A", lim: lim, cfg: cfg, srv: srv, stream: st, allChunks: len(st) <= nAll, pairs: pairs && len(st) <= c06PairMax}
 				cases = append(cases, c)
 				exp := c06Oracle(st, lim, cfg, srv)
 				if exp[len(exp)-1].class == "trunc-body" {
@@ -1008,8 +1028,19 @@ func TestVerif_C06_Framing(t *testing.T) {
 	mine := func() bool { gi++; return r.Mine(gi) }
 
 	// family A
-	nAll := r.Pick(11, 15)
+	nAll := r.Pick(11, 14)
 	maxMsgsA := r.Pick(2, 3)
+	if c06DryRun { // sizing experiments only
+		if v, err := strconv.Atoi(os.Getenv("C06_NALL")); err == nil {
+			nAll = v
+		}
+		if v, err := strconv.Atoi(os.Getenv("C06_MAXMSGS")); err == nil {
+			maxMsgsA = v
+		}
+		if v, err := strconv.Atoi(os.Getenv("C06_PAIRMAX")); err == nil {
+			c06PairMax = v
+		}
+	}
 	r.Set(P, "A_all_chunkings_up_to_stream_bytes", nAll)
 	r.Set(P, "A_max_messages", maxMsgsA)
 	var casesA int64
@@ -1029,7 +1060,7 @@ func TestVerif_C06_Framing(t *testing.T) {
 		}
 	}
 	r.Set(P, "A_cases", casesA)
-	fmt.Printf("[c06] family A done at %.1fs\n", time.Since(t0).Seconds())
+	fmt.Printf("[c06] family A done at %.1fs, %d runs so far\n", time.Since(t0).Seconds(), x.totalRuns())
 
 	// family B
 	var casesB int64
@@ -1046,7 +1077,7 @@ func TestVerif_C06_Framing(t *testing.T) {
 		}
 	}
 	r.Set(P, "B_cases", casesB)
-	fmt.Printf("[c06] family B done at %.1fs\n", time.Since(t0).Seconds())
+	fmt.Printf("[c06] family B done at %.1fs, %d runs so far\n", time.Since(t0).Seconds(), x.totalRuns())
 
 	// family C
 	var casesC int64
@@ -1061,7 +1092,7 @@ func TestVerif_C06_Framing(t *testing.T) {
 		}
 	}
 	r.Set(P, "C_cases", casesC)
-	fmt.Printf("[c06] family C done at %.1fs\n", time.Since(t0).Seconds())
+	fmt.Printf("[c06] family C done at %.1fs, %d runs so far\n", time.Since(t0).Seconds(), x.totalRuns())
 	x.finish()
 
 	r.Sample(P, map[string]any{"family": "A", "stream": "00000000050102030405 | 01000000022161", "limit": 5, "config": "nib-v1", "chunking": "every one of the 2^(n-1)", "expected": "message 0102030405, then nibble payload 21 61 inflates to 6061.. within limit"})
